@@ -82,6 +82,41 @@ Theorem C05_gmrf_eps_deviation : forall (R : realFieldType) (prec eps lam : R), 
 Proof. exact eps_var_deviation. Qed.
 Print Assumptions C05_gmrf_eps_deviation.
 
+(* the WHOLE covariance, given an orthonormal eigenbasis of P (columns of U; its existence for the real symmetric P is classical
+   and not formalised): C = U diag(eps_var prec eps l_j) U^T ... *)
+Theorem C05_gmrf_eps_cov_spectral : forall (R : realFieldType) (n m : nat) (D : 'M[R]_(m, n)) (T : 'M[R]_(n, m)) (U : 'M[R]_n) (l : 'rV[R]_n) (r prec eps : R),
+  let P := D^T *m D in let Pe := P + eps%:M in let C := T *m T^T in
+  0 < eps -> 0 < prec -> (forall j, 0 <= l 0 j) -> r * r = prec -> (r *: Pe) *m T = D^T ->
+  U *m U^T = 1%:M -> P *m U = U *m diag_mx l ->
+  C = U *m diag_mx (\row_j eps_var prec eps (l 0 j)) *m U^T.
+Proof. exact gmrf_eps_cov_spectral. Qed.
+Print Assumptions C05_gmrf_eps_cov_spectral.
+
+(* ... while the documented law has Cdoc = U diag(doc_j) U^T, doc_j = 1/(prec l_j) on the range of P and 0 on its null space: a
+   generalised inverse of the documented precision prec P.  Hence Cdoc - C = U diag(doc_j - eps_var_j) U^T, zero on the null space
+   and, by C05_gmrf_eps_deviation, 0 < doc_j - eps_var_j < doc_j * 2 eps / l_j on the range: the explicit distance in eps. *)
+Theorem C05_gmrf_doc_cov_spectral : forall (R : realFieldType) (n : nat) (P U : 'M[R]_n) (l : 'rV[R]_n) (prec : R),
+  prec != 0 -> U^T *m U = 1%:M -> P = U *m diag_mx l *m U^T ->
+  let doc := \row_j (if l 0 j == 0 then 0 else doc_var prec (l 0 j)) in
+  let Cdoc := U *m diag_mx doc *m U^T in
+  (prec *: P) *m Cdoc *m (prec *: P) = prec *: P.
+Proof. exact gmrf_doc_cov_spectral. Qed.
+Print Assumptions C05_gmrf_doc_cov_spectral.
+
+(* the distance between the documented covariance and the covariance of the draws, in one statement *)
+Theorem C05_gmrf_eps_distance : forall (R : realFieldType) (n m : nat) (D : 'M[R]_(m, n)) (T : 'M[R]_(n, m)) (U : 'M[R]_n) (l : 'rV[R]_n) (r prec eps : R),
+  let P := D^T *m D in let Pe := P + eps%:M in let C := T *m T^T in
+  let doc := \row_j (if l 0 j == 0 then 0 else doc_var prec (l 0 j)) in
+  let Cdoc := U *m diag_mx doc *m U^T in
+  let delta := \row_j (doc 0 j - eps_var prec eps (l 0 j)) in
+  0 < eps -> 0 < prec -> (forall j, 0 <= l 0 j) -> r * r = prec -> (r *: Pe) *m T = D^T ->
+  U *m U^T = 1%:M -> P *m U = U *m diag_mx l ->
+  Cdoc - C = U *m diag_mx delta *m U^T /\
+  forall j, (l 0 j = 0 -> delta 0 j = 0) /\
+            (0 < l 0 j -> 0 < delta 0 j /\ delta 0 j < doc_var prec (l 0 j) * (2%:R * eps / l 0 j)).
+Proof. exact gmrf_eps_distance. Qed.
+Print Assumptions C05_gmrf_eps_distance.
+
 (* the same eigen-direction identity over any field, under the invertibility / non-vanishing hypotheses it needs there *)
 Theorem C05_gmrf_eps_eigen_field : forall (F : fieldType) (n m : nat) (D : 'M[F]_(m, n)) (T : 'M[F]_(n, m)) (r prec eps lam : F) (v : 'cV[F]_n),
   let P := D^T *m D in let Pe := P + eps%:M in let C := T *m T^T in
